@@ -98,7 +98,7 @@ func (x *XML2sdcpbConfigAdapter) transformRecursive(ctx context.Context, e *etre
 	case *sdcpb.SchemaElem_Leaflist:
 		// retrieved schema describes a yang LeafList
 		log.Tracef("transforming leaflist %q", e.Tag)
-		err = x.transformLeafList(ctx, e, pelems, tc)
+		err = x.transformLeafList(ctx, e, pelems, sr.GetSchema().GetLeaflist(), tc)
 		if err != nil {
 			return err
 		}
@@ -200,12 +200,16 @@ func (x *XML2sdcpbConfigAdapter) transformField(ctx context.Context, e *etree.El
 // transformLeafList processes LeafList entries. These will be store in the TransformationContext.
 // A new TransformationContext is created when entering a new container. And the appropriate actions are taken when a container is exited.
 // Meaning the LeafLists will then be transformed into a single update with a sdcpb.TypedValue_LeaflistVal with all the values.
-func (x *XML2sdcpbConfigAdapter) transformLeafList(_ context.Context, e *etree.Element, pelems []*sdcpb.PathElem, tc *TransformationContext) error {
+func (x *XML2sdcpbConfigAdapter) transformLeafList(_ context.Context, e *etree.Element, pelems []*sdcpb.PathElem, lls *sdcpb.LeafListSchema, tc *TransformationContext) error {
 
 	// process terminal values
 	data := strings.TrimSpace(e.Text())
 
-	typedval := &sdcpb.TypedValue{Value: &sdcpb.TypedValue_StringVal{StringVal: data}}
+	// like a leaf, an entry carries the typed value of the leaf-list's type
+	typedval, err := utils.Convert(data, lls.GetType())
+	if err != nil {
+		return err
+	}
 
 	name := pelems[len(pelems)-1].Name
 	tc.AddLeafListEntry(name, typedval)
